@@ -56,8 +56,9 @@ def run(R):
                     nv = strip_casts(a.node["args"][1])
                     if not (isinstance(nv, dict) and nv.get("k") == "bin" and nv.get("op") == "+" and const_val(nv.get("r")) == 1):
                         okc = False
-                    used = any(e.get("k") == "return" and any(x.get("sid") == a.node["sid"] for x in subexprs(e)) for _, e in fn.events()) or \
-                        any(any(x.get("sid") == a.node["sid"] for x in subexprs(t["cond"])) for b, t in fn.branch_blocks())
+                    # ... directly or through a named temporary (`const bool won = top_.compare_exchange...`)
+                    used = any(e.get("k") == "return" and any(x.get("sid") == a.node["sid"] for x in subexprs(fn.expand_expr(e))) for _, e in fn.events()) or \
+                        any(any(x.get("sid") == a.node["sid"] for x in subexprs(fn.expand_expr(t["cond"]))) for b, t in fn.branch_blocks())
                     if not used:
                         okc = False
             R.ob("C36.cas", fn, cas[0].node if cas else fn.loc, okc, "seq_cst CAS top_: t -> t+1 decides the outcome" if okc else "the race on top_ is not decided by a seq_cst compare-exchange whose result is used", sitekey=nm + ":cas", why=WHY)
